@@ -555,7 +555,18 @@ def pdom_sched_order(ctx, prog):
 
 pdom_sched_order.rule_id = "C02.PDOM-sched"
 
-RULES = [guard_bypass, wmc_link, pdom_height, ensure_raise, dtab_can_recompute, dtab_scope, data_edge_ends, guard_every_rhs_node, pdom_sched_order]
+def wmc_scope(ctx, prog):
+    """Heights are assigned from the creation scope: within_scope must restore the scope that was current on entry
+    (C20.WMC-scope), otherwise nodes built later in a bind closure are attributed to Top and sit below the bind's
+    lhs-change node."""
+    from .engine import run_relabelled
+    from .c20 import wmc_scope as f
+    run_relabelled(ctx, prog, f, "C20.WMC-scope", "C02.WMC-scope")
+
+
+wmc_scope.rule_id = "C02.WMC-scope"
+
+RULES = [guard_bypass, wmc_link, pdom_height, ensure_raise, dtab_can_recompute, dtab_scope, data_edge_ends, guard_every_rhs_node, pdom_sched_order, wmc_scope]
 
 # control signature of the bookkeeping effects this property depends on (rules/ctrlsig.py)
 from .ctrlsig import make_rule as _ctrl_rule  # noqa: E402
